@@ -174,13 +174,15 @@ struct Seed {
     fresh: bool,
     /// run as it is only (its own space), not mutated
     own_space: bool,
+    /// part of the count / scale sweep: run as it is (space scale.lists), not mutated
+    no_mutate: bool,
 }
 
 impl Seed {
     fn new(name: &str, kind: Kind, bytes: Vec<u8>, fresh: bool) -> Seed {
         let (tal_prefix, der) = if kind == Kind::Tal { split_tal(&bytes) } else { (None, bytes.clone()) };
         let tree = if matches!(kind, Kind::AsText | Kind::IpText) { None } else { Tree::parse(&der) };
-        Seed { name: name.to_string(), kind, bytes, tal_prefix, der, tree, fresh, own_space: false }
+        Seed { name: name.to_string(), kind, bytes, tal_prefix, der, tree, fresh, own_space: false, no_mutate: false }
     }
     fn wrap(&self, der: Vec<u8>) -> Vec<u8> {
         match &self.tal_prefix {
@@ -421,7 +423,7 @@ fn tlv_child<'a>(buf: &'a [u8], path: &[usize]) -> &'a [u8] {
     n.whole(buf)
 }
 
-fn build_env() -> Env {
+fn build_env(thorough: bool) -> Env {
     let signer = PoolSigner::load();
     let mut seeds = Vec::new();
     let mut skipped = Vec::new();
@@ -649,6 +651,72 @@ fn build_env() -> Env {
     fx.att_multi = att_multi;
     seeds.push(Seed::new("fresh/e5-multi-signer.rta", Kind::Rta, e5_rta(&signer, &fx.att_multi, &[&fx.ee_cert_der, &fx.edge_ee_der], &[], &[2, 6], true, None), true));
 
+    //--- the scale dimension: certificates with 17 / 33 / 65 disjoint blocks per family (gaps
+    // between all of them), and signed objects under them whose content asks for a resource
+    // below the first block, at the first / a middle / the last block, in a gap, above the last
+    // block. The EE resources are independent of the content (E5 assembly).
+    let mut scale_issuers: Vec<ResourceCert> = Vec::new();
+    for &n in &[17usize, 33, 65] {
+        let v4: Vec<(u128, u128)> = (1..=n as u128).map(|k| (0x0a00_0000 + (k << 16), 0x0a00_0000 + (k << 16) + 255)).collect();          // 10.k.0.0/24
+        let v6: Vec<(u128, u128)> = (1..=n as u128).map(|k| { let b = (0x2001_0db8u128 << 96) | (k << 80); (b, b | ((1u128 << 80) - 1)) }).collect(); // 2001:db8:k::/48
+        let asn: Vec<(u128, u128)> = (1..=n as u128).map(|k| (64496 + 4 * k, 64496 + 4 * k + 1)).collect();
+        let res = || Res { v4: Claim::Blocks(v4.clone()), v6: Claim::Blocks(v6.clone()), asn: Claim::Blocks(asn.clone()) };
+        let sca_der = pki::build_cert_der(&signer, &spec_with(Spec::issued(pki::Kind::Ca, 3, 0, ta.subject_key_identifier(), res(), Overclaim::Refuse), 100 + n as u128));
+        let sca = Cert::decode(sca_der.as_slice()).expect("scale CA decodes").validate_ca_at(&ta, true, t0()).expect("scale CA validates");
+        let see_der = pki::build_cert_der(&signer, &spec_with(Spec::issued(pki::Kind::Ee, 2, 3, sca.subject_key_identifier(), res(), Overclaim::Refuse), 200 + n as u128));
+        let see_as_der = pki::build_cert_der(&signer, &spec_with(Spec::issued(pki::Kind::Ee, 2, 3, sca.subject_key_identifier(),
+            Res { v4: Claim::Missing, v6: Claim::Missing, asn: Claim::Blocks(asn.clone()) }, Overclaim::Refuse), 300 + n as u128));
+        let mut push = |name: String, kind: Kind, bytes: Vec<u8>| { let mut sd = Seed::new(&name, kind, bytes, true); sd.no_mutate = true; seeds.push(sd) };
+        push(format!("scale/{n}-blocks-ca.cer"), Kind::Cert, sca_der);
+        push(format!("scale/{n}-blocks-ee.cer"), Kind::Cert, see_der.clone());
+        let mid = (n as u128 + 1) / 2;
+        // (placement, block number k, offset inside / beside the block)
+        let places: [(&str, u128, i64); 7] = [("below-first", 1, -256), ("first", 1, 0), ("gap-after-first", 1, 256), ("middle", mid, 0), ("gap-after-middle", mid, 256), ("last", n as u128, 0), ("above-last", n as u128, 256)];
+        for (what, k, off) in places {
+            let a4 = ((0x0a00_0000 + (k << 16)) as i64 + off) as u128;
+            let a6 = (((0x2001_0db8u128 << 96) | (k << 80)) as i128 + ((off as i128) << 72)) as u128;   // off = +-256 -> the neighbouring /48
+            let econtent = der::roa_content(None, 64500, Some(&[der::roa_addr_from(a4, 24, 32, Some(24))]), Some(&[der::roa_addr_from(a6, 48, 128, None)]));
+            push(format!("scale/{n}-blocks-{what}.roa"), Kind::Roa, e5_signed_object(&signer, der::OID_CT_ROA, &econtent, &see_der, 2, vec![], true));
+            let cust = (64496 + 4 * k) as i64 + if off < 0 { -1 } else if off > 0 { 2 } else { 0 };
+            let econtent = der::aspa_content(Some(1), cust as u128, &[64000, 64001]);
+            push(format!("scale/{n}-blocks-{what}.asa"), Kind::Aspa, e5_signed_object(&signer, der::OID_CT_ASPA, &econtent, &see_as_der, 2, vec![], true));
+        }
+        scale_issuers.push(sca);
+    }
+
+    //--- the count dimension: every list the accessors walk, with 0..=40 and 255..=257 entries
+    // (thorough: also the neighbourhoods of 64, 128, 1024, 4096); provider sets additionally
+    // around the documented maximum of 16380
+    {
+        let mut counts: Vec<usize> = (0..=40).collect();
+        counts.extend([255, 256, 257]);
+        if thorough { counts.extend([63, 64, 65, 127, 128, 129, 1023, 1024, 1025, 4095, 4096, 4097]) }
+        let mut push = |name: String, kind: Kind, bytes: Vec<u8>| { let mut sd = Seed::new(&name, kind, bytes, true); sd.no_mutate = true; seeds.push(sd) };
+        let wide_ee = pki::build_cert_der(&signer, &spec_with(Spec::issued(pki::Kind::Ee, 2, 1, ca.subject_key_identifier(),
+            Res { v4: Claim::Blocks(vec![(0x0a00_0000, 0x0aff_ffff)]), v6: Claim::Missing, asn: Claim::Missing }, Overclaim::Refuse), 400));
+        for &n in &counts {
+            let entries: Vec<CrlEntry> = (0..n).map(|i| CrlEntry::new(Serial::from(10 + 3 * i as u64), pki::time(pki::T0 - 7200))).collect();
+            let c = TbsCertList::new(RpkiSignatureAlgorithm::default(), signer.public(1).to_subject_name(), pki::time(pki::T0 - 3600), Time::utc(2123, 11, 14, 0, 0, 0),
+                entries, signer.public(1).key_identifier(), Serial::from(n as u64 + 1)).into_crl(&signer, &Kid(1)).expect("count crl");
+            push(format!("count/{n:05}-entries.crl"), Kind::Crl, c.to_captured().as_slice().to_vec());
+            let files: Vec<FileAndHash<Bytes, Bytes>> = (0..n).map(|i| FileAndHash::new(Bytes::from(format!("f{i:05}.roa")), Bytes::from(vec![(i % 251) as u8; 32]))).collect();
+            let m = ManifestContent::new(Serial::from(n as u64 + 1), t0(), Time::utc(2123, 1, 1, 0, 0, 0), DigestAlgorithm::default(), files.iter())
+                .into_manifest(sob(500 + n as u64, "count.mft"), &signer, &Kid(1)).expect("count mft");
+            push(format!("count/{n:05}-entries.mft"), Kind::Mft, m.to_captured().as_slice().to_vec());
+            let addrs: Vec<der::RoaAddr> = (0..n as u128).map(|i| der::roa_addr_from(0x0a00_0000 + (i << 8), 24, 32, if i % 2 == 0 { Some(24) } else { None })).collect();
+            let econtent = der::roa_content(None, 64496, Some(&addrs), None);
+            push(format!("count/{n:05}-prefixes.roa"), Kind::Roa, e5_signed_object(&signer, der::OID_CT_ROA, &econtent, &wide_ee, 2, vec![], true));
+        }
+        let mut pcounts: Vec<usize> = (1..=40).collect();
+        pcounts.extend([255, 256, 257, 16379, 16380, 16381]);
+        if thorough { pcounts.extend([63, 64, 65, 127, 128, 129, 1023, 1024, 1025, 4095, 4096, 4097, 8191, 8192, 8193, 16383, 16384, 16385]) }
+        for &n in &pcounts {
+            let provs: Vec<u128> = (0..n as u128).map(|i| 100_000 + 2 * i).collect();
+            let econtent = der::aspa_content(Some(1), 64496, &provs);
+            push(format!("count/{n:05}-providers.asa"), Kind::Aspa, e5_signed_object(&signer, der::OID_CT_ASPA, &econtent, &fx.ee_as_der, 2, vec![], true));
+        }
+    }
+
     //--- text lists for the FromStr decoders
     seeds.push(Seed::new("fresh/as-list.txt", Kind::AsText, b"AS0, AS5-AS6, AS64496-AS64511, AS4294967295".to_vec(), true));
     seeds.push(Seed::new("fresh/ipv4-list.txt", Kind::IpText, b"0.0.0.0/8, 10.0.0.0-10.0.1.255, 192.0.2.7, 255.255.255.255/32".to_vec(), true));
@@ -684,6 +752,7 @@ fn build_env() -> Env {
 
     //--- fixed issuers
     let mut issuers = vec![(ta.clone(), t0()), (ca.clone(), t0()), (edge_ca.clone(), t0())];
+    for sca in scale_issuers { issuers.push((sca, t0())) }
     let at2019 = Time::utc(2019, 5, 1, 0, 0, 0);
     let find = |name: &str| seeds.iter().find(|s| s.name == name).map(|s| s.bytes.clone());
     if let Some(b) = find("repository/ta.cer") {
@@ -1657,14 +1726,14 @@ fn run_case(env: &Env, ep: Ep, bytes: &[u8], do_sweep: bool) -> CaseOut {
 //============ case enumeration (pure functions of seed and index) ==================
 
 #[derive(Clone, Copy, Debug, PartialEq, Eq, Hash, PartialOrd, Ord)]
-enum SpaceId { B0, B1, B2P, B2L, Str, Rs, SelfTest, Own }
+enum SpaceId { B0, B1, B2P, B2L, Str, Rs, SelfTest, Own, Scale }
 
 impl SpaceId {
     fn code(self) -> &'static str {
-        match self { SpaceId::B0 => "b0", SpaceId::B1 => "b1", SpaceId::B2P => "b2p", SpaceId::B2L => "b2l", SpaceId::Str => "str", SpaceId::Rs => "rs", SpaceId::SelfTest => "self", SpaceId::Own => "own" }
+        match self { SpaceId::B0 => "b0", SpaceId::B1 => "b1", SpaceId::B2P => "b2p", SpaceId::B2L => "b2l", SpaceId::Str => "str", SpaceId::Rs => "rs", SpaceId::SelfTest => "self", SpaceId::Own => "own", SpaceId::Scale => "sc" }
     }
     fn parse(s: &str) -> Option<SpaceId> {
-        [SpaceId::B0, SpaceId::B1, SpaceId::B2P, SpaceId::B2L, SpaceId::Str, SpaceId::Rs, SpaceId::SelfTest, SpaceId::Own].into_iter().find(|x| x.code() == s)
+        [SpaceId::B0, SpaceId::B1, SpaceId::B2P, SpaceId::B2L, SpaceId::Str, SpaceId::Rs, SpaceId::SelfTest, SpaceId::Own, SpaceId::Scale].into_iter().find(|x| x.code() == s)
     }
 }
 
@@ -1883,7 +1952,7 @@ impl Worker {
     fn run_task(&mut self, t: &Task) -> TaskResult {
         let mut res = TaskResult::default();
         match t.sp {
-            SpaceId::B0 | SpaceId::Own => {
+            SpaceId::B0 | SpaceId::Own | SpaceId::Scale => {
                 let s = &self.env.seeds[t.seed];
                 let out = run_case(&self.env, t.ep, &s.bytes, true);
                 if out.decoded { res.nontrivial += 1 }
@@ -1992,7 +2061,7 @@ fn worker_main(thorough: bool) -> ! {
             std::process::exit(3);
         }
     }
-    let env = match guard(build_env) {
+    let env = match guard(|| build_env(thorough)) {
         Ok(e) => e,
         Err(p) => { println!("{}", json!({"fatal": format!("worker could not build its environment: {p}")})); std::process::exit(3) }
     };
@@ -2287,7 +2356,7 @@ impl PoolState {
 fn describe_case(env: &Env, thorough: bool, t: &Task) -> (String, String, Vec<u8>) {
     let idx = t.lo;
     match t.sp {
-        SpaceId::B0 | SpaceId::Own => { let s = &env.seeds[t.seed]; (s.name.clone(), "seed".into(), s.bytes.clone()) }
+        SpaceId::B0 | SpaceId::Own | SpaceId::Scale => { let s = &env.seeds[t.seed]; (s.name.clone(), "seed".into(), s.bytes.clone()) }
         SpaceId::B1 => {
             let s = &env.seeds[t.seed];
             let list = b1_cases(s, thorough);
@@ -2350,7 +2419,7 @@ fn main() {
     // the fixtures are built with the library under test: guard against panics and stalls
     let env = {
         let (tx, rx) = mpsc::channel();
-        std::thread::spawn(move || { let _ = tx.send(guard(build_env)); });
+        std::thread::spawn(move || { let _ = tx.send(guard(|| build_env(thorough))); });
         match rx.recv_timeout(Duration::from_secs(180)) {
             Ok(Ok(e)) => e,
             Ok(Err(p)) => { ctx.machinery_error(format!("cannot build the fixtures: {p}")); ctx.finish() }
@@ -2440,7 +2509,7 @@ fn main() {
         plan.add_range(SpaceId::Rs, i, rs.eps()[0], total, 96);
     }
     // bound 1 (largest seeds first)
-    let b1_lists: Vec<Vec<Case1>> = env.seeds.par_iter().map(|s| if s.own_space { Vec::new() } else { b1_cases(s, thorough) }).collect();
+    let b1_lists: Vec<Vec<Case1>> = env.seeds.par_iter().map(|s| if s.own_space || s.no_mutate { Vec::new() } else { b1_cases(s, thorough) }).collect();
     let mut order: Vec<usize> = (0..env.seeds.len()).collect();
     order.sort_by_key(|&i| std::cmp::Reverse(env.seeds[i].bytes.len()));
     for &i in &order {
@@ -2449,14 +2518,14 @@ fn main() {
         for &ep in eps_for(s.kind) { plan.add_range(SpaceId::B1, i, ep, b1_lists[i].len() as u64, chunk) }
     }
     // bound 0
-    for (i, s) in env.seeds.iter().enumerate() { if !s.own_space { for &ep in eps_for(s.kind) { plan.add_range(SpaceId::B0, i, ep, 1, 1) } } }
+    for (i, s) in env.seeds.iter().enumerate() { if !s.own_space { for &ep in eps_for(s.kind) { plan.add_range(if s.no_mutate { SpaceId::Scale } else { SpaceId::B0 }, i, ep, 1, 1) } } }
     // bound 2 (thorough): one seed per kind, the one with the fewest TLV nodes
     let mut b2_seeds: Vec<usize> = Vec::new();
     if thorough {
         let mut best: BTreeMap<Kind, usize> = BTreeMap::new();
         for (i, s) in env.seeds.iter().enumerate() {
             let Some(t) = &s.tree else { continue };
-            if s.own_space { continue }
+            if s.own_space || s.no_mutate { continue }
             // freshly built seeds (known to decode) are preferred; the parent never
             // runs the subject on a seed itself
             if !s.fresh && env.seeds.iter().any(|o| o.kind == s.kind && o.fresh && o.tree.is_some()) { continue }
